@@ -344,7 +344,9 @@ func (c *callEngine) callWithStack(ctx context.Context, paramResultStack []uint6
 			listener := listeners[index]
 			hostModule := hostModuleFromOpaque(c.execCtx.goFunctionCallCalleeModuleContextOpaque)
 			def := hostModule.FunctionDefinition(wasm.Index(index))
-			listener.Before(ctx, callerModule, def, s, c.stackIterator(true))
+			// The stack view is as long as max(params, results): listeners get exactly the params, then exactly the results.
+			typ := &hostModule.TypeSection[hostModule.FunctionSection[index]]
+			listener.Before(ctx, callerModule, def, s[:typ.ParamNumInUint64], c.stackIterator(true))
 			// Call into the Go function.
 			func() {
 				if snapshotEnabled {
@@ -353,7 +355,7 @@ func (c *callEngine) callWithStack(ctx context.Context, paramResultStack []uint6
 				f.Call(ctx, s)
 			}()
 			// Call Listener.After.
-			listener.After(ctx, callerModule, def, s)
+			listener.After(ctx, callerModule, def, s[:typ.ResultNumInUint64])
 			// Back to the native code.
 			c.execCtx.exitCode = wazevoapi.ExitCodeOK
 			afterGoFunctionCallEntrypoint(c.execCtx.goCallReturnAddress, c.execCtxPtr,
@@ -382,7 +384,9 @@ func (c *callEngine) callWithStack(ctx context.Context, paramResultStack []uint6
 			listener := listeners[index]
 			hostModule := hostModuleFromOpaque(c.execCtx.goFunctionCallCalleeModuleContextOpaque)
 			def := hostModule.FunctionDefinition(wasm.Index(index))
-			listener.Before(ctx, callerModule, def, s, c.stackIterator(true))
+			// The stack view is as long as max(params, results): listeners get exactly the params, then exactly the results.
+			typ := &hostModule.TypeSection[hostModule.FunctionSection[index]]
+			listener.Before(ctx, callerModule, def, s[:typ.ParamNumInUint64], c.stackIterator(true))
 			// Call into the Go function.
 			func() {
 				if snapshotEnabled {
@@ -391,7 +395,7 @@ func (c *callEngine) callWithStack(ctx context.Context, paramResultStack []uint6
 				f.Call(ctx, callerModule, s)
 			}()
 			// Call Listener.After.
-			listener.After(ctx, callerModule, def, s)
+			listener.After(ctx, callerModule, def, s[:typ.ResultNumInUint64])
 			// Back to the native code.
 			c.execCtx.exitCode = wazevoapi.ExitCodeOK
 			afterGoFunctionCallEntrypoint(c.execCtx.goCallReturnAddress, c.execCtxPtr,
